@@ -20,20 +20,48 @@ func valtableStream(b *builder, r *rng, extra int) {
 		}
 		return sb.String()
 	}
-	file := func(tables [][]vd, vals [][]vd) []byte {
+	// sizes: bit size of signal i (8 when absent); perMsg: signals per message (0 = all in one message)
+	fileSized := func(tables [][]vd, vals [][]vd, sizes []int, perMsg int) []byte {
 		var sb strings.Builder
 		sb.WriteString("VERSION \"\"\nNS_ :\nBS_:\nBU_: A\n")
 		for i, t := range tables {
 			fmt.Fprintf(&sb, "VAL_TABLE_ vt%d%s ;\n", i, render(t))
 		}
-		sb.WriteString("BO_ 1 m : 8 A\n")
+		msgOf := func(i int) int {
+			if perMsg <= 0 {
+				return 1
+			}
+			return 1 + i/perMsg
+		}
+		start, cur := 0, 0
 		for i := range vals {
-			fmt.Fprintf(&sb, " SG_ s%d : %d|8@1+ (1,0) [0|255] \"\" A\n", i, 8*i)
+			if m := msgOf(i); m != cur {
+				cur, start = m, 0
+				fmt.Fprintf(&sb, "BO_ %d msg%d : 8 A\n", m, m)
+			}
+			size := 8
+			if i < len(sizes) {
+				size = sizes[i]
+			}
+			fmt.Fprintf(&sb, " SG_ s%d : %d|%d@1+ (1,0) [0|255] \"\" A\n", i, start, size)
+			start += size
 		}
 		for i, v := range vals {
-			fmt.Fprintf(&sb, "VAL_ 1 s%d%s ;\n", i, render(v))
+			fmt.Fprintf(&sb, "VAL_ %d s%d%s ;\n", msgOf(i), i, render(v))
 		}
 		return []byte(sb.String())
+	}
+	file := func(tables [][]vd, vals [][]vd) []byte {
+		if len(vals) == 0 {
+			var sb strings.Builder
+			sb.WriteString("VERSION \"\"\nNS_ :\nBS_:\nBU_: A\n")
+			for i, t := range tables {
+				fmt.Fprintf(&sb, "VAL_TABLE_ vt%d%s ;\n", i, render(t))
+			}
+			sb.WriteString("BO_ 1 m : 8 A\n")
+			return []byte(sb.String())
+		}
+		return fileSized(tables, vals, nil, 0)
 	}
 	base := func(k int) []vd {
 		var l []vd
@@ -77,11 +105,34 @@ func valtableStream(b *builder, r *rng, extra int) {
 		t := base(k)
 		for _, v := range variants(t) {
 			b.add("valtable", file([][]vd{t}, [][]vd{v}))
-			b.add("valtable", file([][]vd{base(2), t}, [][]vd{v}))          // another table first
+			b.add("valtable", file([][]vd{base(2), t}, [][]vd{v}))                 // another table first
 			b.add("valtable", file([][]vd{t, t}, [][]vd{v, append([]vd{}, t...)})) // the table twice, two signals
 		}
 		b.add("valtable", file([][]vd{t}, nil))
 		b.add("valtable", file(nil, [][]vd{t}))
+	}
+	// one table shared by several signals of DIFFERENT bit sizes, in one message and across messages, the table
+	// first met by the widest / the narrowest signal; with a second table in between; with one VAL_ that is not the
+	// table (added after the seeded change C09-r5m1 - a per-size cache of enum copies in a map never allocated,
+	// reached only when the second user of a table has another size - was missed: every signal here was 8 bits wide)
+	for k := 1; k <= 3; k++ {
+		t := base(k)
+		for _, sizes := range [][]int{{8, 4}, {4, 8}, {8, 8, 4}, {2, 8, 16}, {8, 4, 8, 4}, {16, 16, 3, 3, 16}, {1, 2, 3, 4, 5, 6}, {4, 4}, {8, 4, 2}} {
+			if 1<<sizes[0] < k {
+				continue
+			}
+			vals := make([][]vd, len(sizes))
+			for i := range vals {
+				vals[i] = append([]vd{}, t...)
+			}
+			for _, perMsg := range []int{0, 1, 2} {
+				b.add("valtable", fileSized([][]vd{t}, vals, sizes, perMsg))
+				b.add("valtable", fileSized([][]vd{base(k + 1), t}, vals, sizes, perMsg))
+			}
+			mixed := append([][]vd{}, vals...)
+			mixed[len(mixed)/2] = append(append([]vd{}, t...), vd{k, "X"})
+			b.add("valtable", fileSized([][]vd{t}, mixed, sizes, 0))
+		}
 	}
 	for i := 0; i < extra; i++ {
 		nt := 1 + r.intn(3)
@@ -93,6 +144,14 @@ func valtableStream(b *builder, r *rng, extra int) {
 			vs := variants(tables[r.intn(nt)])
 			vals = append(vals, vs[r.intn(len(vs))])
 		}
-		b.add("valtable", file(tables, vals))
+		if i%2 == 0 {
+			b.add("valtable", file(tables, vals))
+			continue
+		}
+		sizes := make([]int, len(vals))
+		for j := range sizes {
+			sizes[j] = []int{1, 2, 3, 4, 8, 12, 16}[r.intn(7)]
+		}
+		b.add("valtable", fileSized(tables, vals, sizes, r.intn(3)))
 	}
 }
